@@ -422,15 +422,43 @@ RECURSIVE UpDiff(_, _)
 UpDiff(st, n) == {n} \cup (IF st.N[n].cr /\ ~st.N[n].const
                            THEN UNION {UpDiff(st, st.N[n].par[i]) : i \in 1..Len(st.N[n].par)} ELSE {})
 
+\* ------------------------------------------------------------------ availability of `.grad` (Tensor.grad property)
+\* An owner shows its own gradient.  A view shows (i) its cached view-gradient while that cache is a view of the base's
+\* CURRENT gradient array, else (ii) nothing when the base has no gradient or the view has lost its creator, else
+\* (iii) the replay of its view operation on its PARENT's `.grad` - recursively, so a chain of views is only as
+\* good as its weakest link (a parent whose graph and cache are gone yields None for every descendant).
+CacheValid(st, h) == LET r == st.H[h] IN r.gc # 0 /\ r.gc = st.gen[r.base]
+NeedsParent(st, h) == LET r == st.H[h] IN
+  r.base # 0 /\ ~r.const /\ ~IsNone(st.g[r.base]) /\ ~CacheValid(st, h) /\ HasCr(st, h)
+RECURSIVE GradAvail(_, _)
+GradAvail(st, h) ==
+  LET r == st.H[h] IN
+  IF r.const THEN FALSE
+  ELSE IF r.base = 0 THEN ~IsNone(st.g[h])
+  ELSE IF IsNone(st.g[r.base]) THEN FALSE
+  ELSE IF CacheValid(st, h) THEN TRUE
+  ELSE IF ~HasCr(st, h) \/ r.par = 0 THEN FALSE
+  ELSE GradAvail(st, r.par)
+\* Reading `.grad` is not free of effects: every view on the chain that had to be recomputed caches the result.
+\* (The harness reads the gradient of every live handle after every statement.)
+RECURSIVE GradChain(_, _)
+GradChain(st, h) == {h} \cup (IF NeedsParent(st, h) /\ st.H[h].par # 0 THEN GradChain(st, st.H[h].par) ELSE {})
+ReadGrads(st, hs) ==
+  LET touched == UNION {GradChain(st, h) : h \in hs} IN
+  [st EXCEPT !.H = [h \in DOMAIN st.H |-> IF h \in touched /\ st.H[h].base # 0 /\ GradAvail(st, h)
+                                           THEN [st.H[h] EXCEPT !.gc = st.gen[st.H[h].base]] ELSE st.H[h]]]
+
 \* clear_graph from node set ns: creators dropped, view registrations dropped; a view that loses its creator
 \* caches ("pulls") the current view of its base's gradient
 ClearNodes(st, ns) ==
   LET hs == {h \in AllH(st) : st.H[h].node \in ns}
-      newgc(r) == IF r.base # 0 /\ st.N[r.node].cr
-                  THEN (IF ~IsNone(st.g[r.base]) THEN st.gen[r.base] ELSE 0)
+      \* (Tensor.clear_graph reads self.grad before dropping the creator; children are visited before parents)
+      newgc(h) == LET r == st.H[h] IN
+                  IF r.base # 0 /\ st.N[r.node].cr
+                  THEN (IF GradAvail(st, h) THEN st.gen[r.base] ELSE 0)
                   ELSE r.gc
       st1 == [st EXCEPT !.N = [n \in DOMAIN @ |-> IF n \in ns THEN [@[n] EXCEPT !.cr = FALSE, !.clr = TRUE, !.clrAt = st.clk] ELSE @[n]],
-                        !.H = [h \in DOMAIN @ |-> IF h \in hs THEN [@[h] EXCEPT !.kids = {}, !.gc = newgc(st.H[h])] ELSE @[h]]]
+                        !.H = [h \in DOMAIN @ |-> IF h \in hs THEN [@[h] EXCEPT !.kids = {}, !.gc = newgc(h)] ELSE @[h]]]
       \* A cleared tensor that had a creator is a LEAF from now on: whatever is (or was) computed from it no
       \* longer differentiates through its former history - backward() through an older graph that reaches it
       \* stops there (the behaviour the repository's state-machine test pins down).  In terms of tangents this
@@ -488,13 +516,9 @@ ApplyBackward(st, s) ==
 \* gradient read through the public `.grad` property
 ObsGrad(st, h) ==
   LET r == st.H[h] IN
-  IF r.const THEN None
-  ELSE IF r.base = 0 THEN (IF IsNone(st.g[h]) THEN None ELSE Some([k \in 1..Len(r.imap) |-> st.g[h].v[r.imap[k]]]))
-  ELSE LET bg == st.g[r.base] IN
-       IF IsNone(bg) THEN None
-       ELSE IF HasCr(st, h) \/ (r.gc # 0 /\ r.gc = st.gen[r.base])
-            THEN Some([k \in 1..Len(r.imap) |-> bg.v[r.imap[k]]])      \* owner's gradient is stored per buffer cell
-            ELSE None
+  IF ~GradAvail(st, h) THEN None
+  ELSE IF r.base = 0 THEN Some([k \in 1..Len(r.imap) |-> st.g[h].v[r.imap[k]]])
+  ELSE Some([k \in 1..Len(r.imap) |-> st.g[r.base].v[r.imap[k]]])      \* owner's gradient is stored per buffer cell
 ObsBase(st, h) == LET b == st.H[h].base IN IF b # 0 /\ ~st.H[b].live THEN -1 ELSE b
 \* ------------------------------------------------------------------ other statements
 \* (clear_graph has no staleness guard: with a pending F-C09-1 consumer the traversal may cross into the mutated
@@ -552,7 +576,7 @@ PartialClear(st, L) ==
   \E m \in UpDiff(st, st.H[L].node) : st.N[m].cr /\ ~st.N[m].const /\
      \E i \in 1..Len(st.N[m].par) : st.N[st.N[m].par[i]].clrAt > st.N[m].born
 
-Apply(st0, s) ==
+ApplyRaw(st0, s) ==
   LET st == [st0 EXCEPT !.clk = @ + 1] IN
   CASE s.k = "leaf"     -> ApplyLeaf(st, s)
     [] s.k = "op"       -> ApplyOp(st, s)
@@ -568,5 +592,8 @@ Apply(st0, s) ==
     [] s.k = "editgrad" -> ApplyEditGrad(st, s)
     [] s.k = "enter"    -> ApplyEnter(st, s)
     [] s.k = "exit"     -> ApplyExit(st, s)
+
+\* one statement followed by the observation of every live tensor (projection reads `.grad`, which fills caches)
+Apply(st0, s) == LET st1 == ApplyRaw(st0, s) IN ReadGrads(st1, {h \in DOMAIN st1.H : st1.H[h].live})
 
 =============================================================================
